@@ -244,8 +244,12 @@ def ignoring_case(ctx, idx):
     OVP = rng.choice([5, 17, 40]) if kind == "packets" else BIG
     OVB = rng.choice([4000, 20000]) if kind == "bytes" else BIG
     psize = rng.choice([0, 16, 300]) if kind == "packets" else rng.choice([256, 1500])
+    # the refusing peer may also provoke replies from the victim's transport thread (an
+    # unknown message type is answered with UNIMPLEMENTED), so that the victim keeps
+    # *sending* past its threshold while the peer ignores the KEXINIT
+    provoke = rng.choice([0, 0, 3, 7]) if kind == "packets" else rng.choice([0, 5])
     desc = dict(kind="ignoring-peer", attacker_role=role, overflow=kind, rekey_packets=REKP,
-                overflow_packets=OVP, overflow_bytes=OVB, ignore_payload=psize)
+                overflow_packets=OVP, overflow_bytes=OVB, ignore_payload=psize, provoke_reply_every=provoke)
     a = attacker.Attacker(role, rng)
     try:
         if not a.start():
@@ -261,7 +265,11 @@ def ignoring_case(ctx, idx):
         payload = bytes(psize)
         while sent < budget and v.is_active():
             try:
-                a.send(2, ("raw", payload))
+                if provoke and sent % provoke == provoke - 1:
+                    a.send(192, ("raw", payload))
+                    ctx.count("replies_provoked_from_victim")
+                else:
+                    a.send(2, ("raw", payload))
             except Exception:
                 break
             sent += 1
